@@ -162,10 +162,10 @@ fn process_dir(
     matcher: &dyn matchers::Matcher,
     quit: &mut bool,
 ) -> i32 {
+    // walkdir always runs in pre-order and reports every depth: the -mindepth
+    // filter and the -depth order are applied below.
     let mut walkdir = WalkDir::new(dir)
-        .contents_first(config.depth_first)
         .max_depth(config.max_depth)
-        .min_depth(config.min_depth)
         .same_file_system(config.same_file_system)
         .follow_links(config.follow == Follow::Always)
         .follow_root_links(config.follow != Follow::Never);
@@ -175,51 +175,71 @@ fn process_dir(
 
     let mut ret = 0;
 
-    // walkdir clamps min_depth to max_depth; an empty depth range selects nothing.
-    if config.min_depth > config.max_depth {
-        return ret;
-    }
-
     // Slightly yucky loop handling here :-(. See docs for
     // WalkDirIterator::skip_current_dir for explanation.
     let mut it = walkdir.into_iter();
     // As WalkDir seems not providing a function to check its stack,
     // using current_dir is a workaround to check leaving directory.
     let mut current_dir: Option<PathBuf> = None;
-    while let Some(result) = it.next() {
-        match WalkEntry::from_walkdir(result, config.follow) {
-            Err(err) => {
+    // With -depth a directory is evaluated after its contents, but on the
+    // status it had before they were visited (-delete changes it), so it
+    // waits here until the walk leaves it.
+    let mut pending: Vec<WalkEntry> = Vec::new();
+    loop {
+        let result = it.next();
+        let done = result.is_none();
+        let depth = match &result {
+            Some(Ok(entry)) => entry.depth(),
+            Some(Err(err)) => err.depth(),
+            None => 0,
+        };
+        let mut ready = Vec::new();
+        while pending.last().is_some_and(|dir| dir.depth() >= depth) {
+            ready.extend(pending.pop());
+        }
+        match result.map(|r| WalkEntry::from_walkdir(r, config.follow)) {
+            Some(Err(err)) => {
                 ret = 1;
                 writeln!(&mut stderr(), "Error: {err}").unwrap();
             }
-            Ok(entry) => {
-                // Entries recovered from walkdir errors (broken symlinks) bypass its depth filter.
+            Some(Ok(entry)) => {
                 if entry.depth() < config.min_depth {
-                    continue;
-                }
-                let mut matcher_io = matchers::MatcherIO::new(deps);
-
-                let new_dir = entry.path().parent().map(|x| x.to_path_buf());
-                if new_dir != current_dir {
-                    if let Some(dir) = current_dir.take() {
-                        matcher.finished_dir(dir.as_path(), &mut matcher_io);
-                    }
-                    current_dir = new_dir;
-                }
-
-                matcher.matches(&entry, &mut matcher_io);
-                match matcher_io.exit_code() {
-                    0 => {}
-                    code => ret = code,
-                }
-                if matcher_io.should_quit() {
-                    *quit = true;
-                    break;
-                }
-                if matcher_io.should_skip_current_dir() && !config.depth_first {
-                    it.skip_current_dir();
+                    // Not evaluated, but still walked.
+                } else if config.depth_first && entry.file_type().is_dir() {
+                    let _ = entry.metadata();
+                    pending.push(entry);
+                } else {
+                    ready.push(entry);
                 }
             }
+            None => {}
+        }
+        for entry in ready {
+            let mut matcher_io = matchers::MatcherIO::new(deps);
+
+            let new_dir = entry.path().parent().map(|x| x.to_path_buf());
+            if new_dir != current_dir {
+                if let Some(dir) = current_dir.take() {
+                    matcher.finished_dir(dir.as_path(), &mut matcher_io);
+                }
+                current_dir = new_dir;
+            }
+
+            matcher.matches(&entry, &mut matcher_io);
+            match matcher_io.exit_code() {
+                0 => {}
+                code => ret = code,
+            }
+            if matcher_io.should_quit() {
+                *quit = true;
+                break;
+            }
+            if matcher_io.should_skip_current_dir() && !config.depth_first {
+                it.skip_current_dir();
+            }
+        }
+        if *quit || done {
+            break;
         }
     }
 
